@@ -5,6 +5,7 @@ def check(ctx):
     S.run_tables(ctx, 'C15', [('DRR', '__init__'), ('DRR', 'put'), ('DRR', 'run'), ('DRR', 'serve'), ('RR', '__init__'), ('RR', 'run'),
                               ('WRR', '__init__'), ('WRR', 'run'), ('MultiQueueScheduler', 'put'),
                               ('Scheduler', 'send_packet'), ('Scheduler', 'add_packet_to_queue')])
+    elements.class_constants(ctx, 'C15', {('DRR', 'MIN_QUANTUM'): '1500'})
     elements.send_packet_awaited(ctx, 'C15', only=('DRR', 'RR', 'WRR'))
     elements.departure_bookkeeping_atomic(ctx, 'C15', only=('DRR', 'RR', 'WRR'))
     keydomains.check(ctx, 'C15', only=('DRR', 'RR', 'WRR'))
